@@ -151,26 +151,10 @@ def writeKeys : Op → List Bytes
 def liveListLen (db : DB) (now : Int) (k : Bytes) : Option Nat :=
   (db.liveKeyT k TList now).map (fun r => (Model.listRows db r.id).length)
 
-/-- D01: the `limit start, stop-start+1` window differs from the clamped Redis window
-(decided on positions, so it does not depend on the elements) -/
-def rangeWindowDeviates (n : Nat) (a b : Int) (precheck : Bool) : Bool :=
-  let idx := List.range n
-  let m : Option (List Nat) :=
-    if precheck && Model.rangePrecheck a b then some [] else Model.rangeWindow (some (n : Int)) a b idx
-  m != some (lrange idx a b)
-
 def known (inTx : Bool) (op : Op) (now : Int) (pre : DB) : List String :=
   let d05 := if (writeKeys op).any (staleKey pre now) then ["D05"] else []
   let rest : List String :=
     match op with
-    | .listRange k a b =>
-      (match liveListLen pre now k with
-       | some n => if rangeWindowDeviates n a b true then ["D01"] else []
-       | none => if !Model.rangePrecheck a b && (a < 0 || b < 0) then ["D02"] else [])
-    | .listTrim k a b =>
-      (match liveListLen pre now k with
-       | some n => if n > 0 && rangeWindowDeviates n a b false then ["D01"] else []
-       | none => [])
     | .listInsertAfter .. | .listInsertBefore .. =>
       (match (Model.tx true op now pre).out with
        | .error .sqlUnique => ["D03"]
